@@ -1,1 +1,49 @@
-From GIV.Model Require Import C10.
+(* C10 — well-formed GTK-Doc comment blocks are parsed exactly.
+   Model: Model/C10.v (the annotation fields: the character loop of _parse_annotations,
+   _parse_annotation, option parsing, _parse_fields, and the writer's _serialize_annotations;
+   annotation vocabulary regenerated from annotationparser.py).  Tied to /repo by harness/c10.py:
+   field strings (valid, malformed, soup) through the real _parse_fields and serializer compared
+   inside Coq; whole blocks in seven layouts through the real block parser and writer. *)
+From Coq Require Import List Arith NArith Bool String Ascii.
+From GIV.Lib Require Import Regex Str.
+From GIV.Gen Require Import AnnNames.
+From GIV.Model Require Import C02 C10.
+From GIV.Proofs Require Import C10.
+Import ListNotations.
+Local Open Scope N_scope.
+
+(* layout independence of annotations: whatever runs of blanks stand before, between and after
+   the parenthesised groups (none at all included), exactly the groups are recovered, in order *)
+Theorem C10_annotation_layout : forall items tail,
+  Forall (fun wb => forallb is_space (fst wb) = true /\ forallb plain (snd wb) = true /\ snd wb <> []) items ->
+  forallb is_space tail = true ->
+  exists e, parse_groups (render_groups items ++ tail) = GOk (map (fun wb => strip (snd wb)) items) e
+            /\ (items <> [] -> e = List.length (render_groups items)).
+Proof. exact parse_groups_layout. Qed.
+Print Assumptions C10_annotation_layout.
+
+(* the options of a list annotation come back in order *)
+Theorem C10_list_options : forall opts,
+  Forall (fun o => opt_ok o = true) opts -> opts <> [] -> parse_options_list (Some (join_sp opts)) = (opts, false).
+Proof. exact options_list_roundtrip. Qed.
+Print Assumptions C10_list_options.
+
+Theorem C10_list_annotation : forall n opts,
+  list_name_ok n -> Forall (fun o => opt_ok o = true) opts -> parse_annotation (body_of n opts) = (n, AList opts, false).
+Proof. exact list_annotation_roundtrip. Qed.
+Print Assumptions C10_list_annotation.
+
+(* writing annotations with the project's own writer and parsing that again gives the same
+   annotations: for every list of list annotations with distinct names and well-formed options *)
+Theorem C10_write_parse_roundtrip : forall anns,
+  Forall wf_ann anns -> NoDup (map fst anns) ->
+  parse_fields (serialize_annotations (map (fun a => (fst a, AList (snd a))) anns))
+  = Some (map (fun a => (fst a, AList (snd a))) anns, [], false).
+Proof. exact fields_roundtrip. Qed.
+Print Assumptions C10_write_parse_roundtrip.
+
+(* non-vacuity: the hypotheses are met by real annotations *)
+Example C10_roundtrip_instance :
+  parse_fields (serialize_annotations [(s "transfer", AList [s "full"]); (s "element-type", AList [s "utf8"; s "gint"]); (s "skip", AList [])])
+  = Some ([(s "transfer", AList [s "full"]); (s "element-type", AList [s "utf8"; s "gint"]); (s "skip", AList [])], [], false).
+Proof. vm_compute. reflexivity. Qed.
